@@ -598,6 +598,9 @@ class VariantBase(productmd.common.MetadataBase):
 
     def add(self, variant, variant_id=None):
         old_parent = variant.parent
+        # collect the ancestors before the variant is re-parented; afterwards
+        # a cycle would make the walk endless
+        parents = self._get_all_parents() if hasattr(self, "parent") else []
         if hasattr(self, "uid"):
             # detect Variant; we don't want to set parent for VariantBase or Variants
             variant.parent = self
@@ -606,7 +609,6 @@ class VariantBase(productmd.common.MetadataBase):
             variant.validate()
             variant_id = variant_id or variant.id
             if hasattr(self, "parent"):
-                parents = self._get_all_parents()
                 if variant in parents:
                     parent_uids = sorted([i.uid for i in parents])
                     raise ValueError("Dependency cycle detected; variant %s; parents: %s" % (variant.uid, parent_uids))
@@ -620,7 +622,7 @@ class VariantBase(productmd.common.MetadataBase):
 
     def _get_all_parents(self):
         result = [self]
-        if self.parent:
+        if self.parent is not None:
             result.extend(self.parent._get_all_parents())
         return result
 
